@@ -43,9 +43,32 @@ def tree_hash(root):
 
 
 def cache_dir(root):
-    d = os.path.join(VERIF, ".cache", "%s-%s" % (tree_hash(root), engine_hash()))
+    # results are keyed by the engine and, per task, by the hashes of exactly the sources the task
+    # depends on (task.cache_key()), so an edit to one function re-runs only the tasks that read it
+    d = os.path.join(VERIF, ".cache", engine_hash())
     os.makedirs(d, exist_ok=True)
     return d
+
+
+_dep_cache = {}
+
+
+def dep_hash(root, modules=(), units=(), drafts=()):
+    """hash of the ASTs of whole modules / single units and of the bundled metaschemas"""
+    import ast
+    from . import extract
+    key = os.path.abspath(root)
+    repo = _dep_cache.get(key)
+    if repo is None:
+        repo = _dep_cache[key] = extract.Repo(root)
+    h = hashlib.sha256()
+    for m in modules:
+        h.update(ast.dump(repo.trees[m]).encode())
+    for u in units:
+        h.update(ast.dump(repo.units[u].node).encode() if u in repo.units else b"missing")
+    for d in drafts:
+        h.update(json.dumps(repo.schemas[d], sort_keys=True).encode())
+    return h.hexdigest()[:20]
 
 
 def _run_one(args):
